@@ -327,7 +327,7 @@ func init() {
 	Builders["iter"] = buildIter
 	Defs["C15"] = &Def{
 		ID:   "C15",
-		Rule: "real searchctl.Iterative.Launch on small roots (K v K, fortress, checkmated, stalemated, mate-in-1 net) x depth limit {none,1,2,3} x table {off,on} x time control {none, given}; the same with captures-only quiescence at the leaves on roots where a capture mates just beyond the horizon; the same with a table that an earlier analysis of the same root to another depth limit (deeper and shallower) has filled; threads: the iterative-deepening goroutine, its quit-cancel goroutine, a consumer, a halter whose Halt becomes enabled at scheduler step k for a grid of k over the whole run (halt instant enumerated), the hard-limit timer (release step enumerated), a consumer that itself calls Halt as soon as it has received depth 1 or 2 next to that timer (two callers of Halt; timer at every step of a grid and as a lazy thread), the search / quit-cancel / consumer goroutine in turn held back for 60 steps after the halt instant (slow-thread dimension) and, with a time control, every time.Since answered 'short' or 'longer than any limit' (environment deviation); all schedules within the deviation bound. Oracle: reported depths strictly increasing; every reported and every Halt-returned (score, PV with table off) equals a direct fixed-depth search; ends by itself exactly at the depth limit or at the first depth with a forced mate within the depth, never earlier, never without a reason; Halt returns a completed iteration >= 1 at least as deep as everything reported before it was requested. Plus the complete grid of TimeControl.Limits (sequential), and a free-running engine analysing a three-move root under a grid of time controls incl. clocks of zero and below (overstepped): at least one depth, increasing, ends, Halt returns a completed iteration; a two-minute watchdog turns a hang into a finding; and depth limits 126..130, 254..257, 300 (around every width a depth or mate distance might be squeezed into) on a root where every line is a fifty-move draw: increasing depths, ends exactly at the limit. distinct_nontrivial = distinct (depth stream, halt result) classes",
+		Rule: "real searchctl.Iterative.Launch on small roots (K v K, fortress, checkmated, stalemated, mate-in-1 net) x depth limit {none,1,2,3} x table {off,on} x time control {none, given}; the same with captures-only quiescence at the leaves on roots where a capture mates just beyond the horizon; the same with a table that an earlier analysis of the same root to another depth limit (deeper and shallower) has filled; threads: the iterative-deepening goroutine, its quit-cancel goroutine, a consumer, a halter whose Halt becomes enabled at scheduler step k for a grid of k over the whole run (halt instant enumerated), the hard-limit timer (release step enumerated), a consumer that itself calls Halt as soon as it has received depth 1 or 2 next to that timer (two callers of Halt; timer at every step of a grid and as a lazy thread), the search / quit-cancel / consumer goroutine in turn held back for 60 steps after the halt instant (slow-thread dimension) and, with a time control, every time.Since answered 'short' or 'longer than any limit' (environment deviation); all schedules within the deviation bound. Oracle: reported depths strictly increasing; every reported and every Halt-returned (score, PV with table off) equals a direct fixed-depth search; ends by itself exactly at the depth limit or at the first depth with a forced mate within the depth, never earlier, never without a reason; Halt returns a completed iteration >= 1 at least as deep as everything reported before it was requested. Plus the grid of TimeControl.Limits (sequential; moves to go 0..100 and around every integer width up to 2^63-1), and a free-running engine analysing a three-move root under a grid of time controls incl. clocks of zero and below (overstepped): at least one depth, increasing, ends, Halt returns a completed iteration; a two-minute watchdog turns a hang into a finding; and depth limits 126..130, 254..257, 300 (around every width a depth or mate distance might be squeezed into) on a root where every line is a fifty-move draw: increasing depths, ends exactly at the limit. distinct_nontrivial = distinct (depth stream, halt result) classes",
 		Gen: func(tier string) []explore.Scenario {
 			roots := []string{kP1, kFortress, kMated, kStale, "7k/8/5K2/6Q1/8/8/8/8 b - - 0 1",
 				"7k/8/6K1/8/8/8/8/R7 b - - 0 1",  // the side to move is mated in 2: the analysis must end at depth 3
@@ -446,14 +446,30 @@ func init() {
 			n := 0
 			remaining := []time.Duration{0, 1, time.Microsecond, time.Millisecond, 10 * time.Millisecond, 999 * time.Millisecond, time.Second, time.Minute, time.Hour, 24 * time.Hour, 1<<62 - 1}
 			for _, r := range remaining {
-				for moves := 0; moves <= 100; moves++ {
+				movesGrid := []int{127, 128, 255, 256, 32767, 32768, 65535, 65536, 1 << 20, 1<<20 + 1, 1<<31 - 1, 1 << 31, 1<<62 - 1, 1 << 62, 1<<63 - 2, 1<<63 - 1}
+				for m := 100; m >= 0; m-- {
+					movesGrid = append([]int{m}, movesGrid...)
+				}
+				for _, moves := range movesGrid {
 					for _, col := range []board.Color{board.White, board.Black} {
 						tc := searchctl.TimeControl{White: r, Black: 2 * time.Hour, Moves: moves}
 						if col == board.Black {
 							tc = searchctl.TimeControl{White: 2 * time.Hour, Black: r, Moves: moves}
 						}
-						soft, hard := tc.Limits(col)
+						soft, hard, crashed := func() (s, h time.Duration, p string) {
+							defer func() {
+								if x := recover(); x != nil {
+									p = fmt.Sprint(x)
+								}
+							}()
+							s, h = tc.Limits(col)
+							return
+						}()
 						n++
+						if crashed != "" {
+							c.Violation(fmt.Sprintf("C15/limits-crash moves=%d", moves), fmt.Sprintf("Limits(%v) with %v left and %d moves to go crashes: %s", col, r, moves, crashed), "note", nil)
+							continue
+						}
 						if hard > r || soft > hard || soft < 0 || hard < 0 {
 							c.Violation(fmt.Sprintf("C15/limits remaining=%v moves=%d", r, moves), fmt.Sprintf("Limits(%v) with %v left and %d moves to go: soft %v hard %v", col, r, moves, soft, hard), "note", nil)
 						}
